@@ -19,7 +19,7 @@ func init() {
 			"positive. R4: entries obtained from the nonce-parametrised reader are written back under a key recomputed from the entry's own metadata nonce: the reader must relate that nonce to the requested one (KNOWN FINDING on this tree, see known_findings.json). " +
 			"R5: the hand-over appends the create role only after a search of the same list for the same constant found nothing. R3 accepts the non-empty-flag exception only under the token-level key. R6–R10 are shared obligations re-derived under this property: counter with the role (C07-R2/R3), SaveKeyValue off the protocol key space (C03-R6), no skipped element at a role removal (C03-R7), modified loaded accounts are saved, the shipped / credited entry is the holder's entry as a whole (C08-R2). Does NOT decide: the invariant on reachable states as such.",
 		Trusted: []string{"C02-R1, C08-R1 (metadata attached only by create)", "A-deps"},
-		Rules:   []func(*Ctx){c15r1, c15r2, c15r3, c15r4, c15r5, c15r6, c15r7, c15r8, c15r9, c15r10},
+		Rules:   []func(*Ctx){c15r1, c15r2, c15r3, c15r4, c15r5, c15r6, c15r7, c15r8, c15r9, c15r10, c15r11, c15r12},
 	})
 }
 
@@ -488,4 +488,17 @@ func c15r9(c *Ctx) {
 // some of its fields arrives with the others at their zero value — NFT metadata under Type Fungible is an ill-formed entry.
 func c15r10(c *Ctx) {
 	c.shareRule(c08r2, "C08-R2", "C15-R10", "the entry marshalled for a credit or a shipment is the sender's (or the decoded) entry as a whole, not one rebuilt field by field", nil)
+}
+
+// c15r11: "the counter held with the create role is never below any nonce ever issued": shared with C07-R5 — nothing but the
+// create function and the hand-over writes the counter entry.
+func c15r11(c *Ctx) {
+	c.shareRule(c07r5, "C07-R5", "C15-R11", "the counter entry is written only by the create function and the role hand-over (nothing else can lower it)", nil)
+}
+
+// c15r12: "the counter held with the create role is never below any nonce ever issued", create side: shared with C07-R1 — the
+// nonce given to a new entry is the counter *stored in the account* plus one and that value is what is stored back; a
+// counter remembered anywhere else (a memo on the function object) goes stale when the hand-over rewrites the entry.
+func c15r12(c *Ctx) {
+	c.shareRule(c07r1, "C07-R1", "C15-R12", "create issues stored counter + 1 and stores it back (the stored counter is the only record of the highest nonce issued)", nil)
 }
